@@ -3,14 +3,17 @@ PLAN = dict(
     level="exploration",
     build=["c19"],
     mc=[dict(module="MC_BitOps", cfg_quick="MC_BitOps_quick.cfg", cfg_thorough="MC_BitOps.cfg",
+             workers=6, timeout_quick=300, timeout_thorough=1800),
+        dict(module="MC_BitBuilder", cfg_quick="MC_BitBuilder_quick.cfg", cfg_thorough="MC_BitBuilder.cfg",
              workers=6, timeout_quick=300, timeout_thorough=1800)],
     drive=[dict(bin="c19", args=["c19"], timeout_quick=600, timeout_thorough=3600)],
     tv=[
         dict(glob="ops-*.ndjson", module="Trace_BitOps", cfg="Trace_BitOps.cfg", xmx="4g", timeout_quick=900,
              timeout_thorough=5400,
-             corrupt=["count", "ht", "iter", "idx", "runs", "chunks", "uw", "not", "un", "sliced", "bsl", "fq", "eq2", "d1",
-                      "and", "xor", "andnot", "tt", "htt", "asu", "ass", "aso", "au1", "ret", "out", "u", "m", "cont", "ex",
-                      "outs", "nn"]),
+             corrupt=["count", "idx", "runs", "uw", "un", "fq", "d1", "bnot", "tt", "asu", "aso", "ret", "out", "m", "ex",
+                      "outs"]),
+        dict(glob="kf-*.ndjson", module="Trace_BitOps", cfg="Trace_BitOps.cfg", xmx="3g", timeout_thorough=3600,
+             corrupt=["bnot", "ret"]),
         dict(glob="builder-*.ndjson", module="Trace_BitOps", cfg="Trace_BitOps.cfg", stateful=True, reset_ops=["bnew"],
              xmx="3g", timeout_thorough=3600, corrupt=["bits", "len"]),
     ],
@@ -25,9 +28,10 @@ PLAN = dict(
                "and on byte-shifted base pointers; TLC recomputes every result from the logged logical bits with the operators of "
                "BitOps.tla (Trace_BitOps). In-place forms log the whole destination before and after (frame condition Outside); "
                "read-only forms run twice with complemented surrounding bits and both runs must agree. MC_BitOps model-checks the "
-               "operator laws on all short sequences and the packed BooleanBufferBuilder machine against its abstract effect.",
+               "operator laws on all short sequences, MC_BitBuilder the packed BooleanBufferBuilder machine against its abstract "
+               "effect.",
     level_note="Two-operand primitives walk every (left offset, length) of the grid with one right offset of equal and one of "
-               "different sub-word alignment, plus the boundary cube offsets x offsets x lengths (a seeded sixth of it in the quick "
+               "different sub-word alignment, plus the boundary cube offsets x offsets x lengths (a seeded twelfth of it in the quick "
                "tier); lengths above 200 are sampled (up to 1600). The builders are driven by (builder length, source offset, "
                "length) triples of the same grid followed by random calls.",
     technique="TLA+ operators on bit sequences as the oracle, TLC trace validation of recorded calls over an exhaustive "
